@@ -453,7 +453,10 @@ func findCrewQueue(pm *ssa.Function) *crewQueue {
 }
 
 // c08Crew: sio.ProcessMsg re-queue and report.
-func c08Crew(c *Ctx) {
+func c08Crew(c *Ctx) { crewEmitted(c, "C08-R5") }
+
+// crewEmitted: the re-queue / report rules of sio.ProcessMsg, shared by C08-R5 and C14-R5.
+func crewEmitted(c *Ctx, rule string) {
 	pm := c.fn("sio", "Crew", "ProcessMsg")
 	if pm == nil {
 		return
@@ -461,7 +464,7 @@ func c08Crew(c *Ctx) {
 	c.R.Fn(fname(pm))
 	cq := findCrewQueue(pm)
 	if cq == nil {
-		c.R.Break("C08-R5: cannot find the pending queue of ProcessMsg (no slice of messages indexed inside a loop)")
+		c.R.Break("%s: cannot find the pending queue of ProcessMsg (no slice of messages indexed inside a loop)", rule)
 		return
 	}
 	w := cq.web
@@ -535,9 +538,9 @@ func c08Crew(c *Ctx) {
 		default:
 			why = "several values are queued at once"
 		}
-		c.R.Check(ok, "C08-R5", fmt.Sprintf("ProcessMsg:re-queue#%d", requeues), c.pos(ap), "every emitted message of every walked machine is appended to the pending queue exactly once", why)
+		c.R.Check(ok, rule, fmt.Sprintf("ProcessMsg:re-queue#%d", requeues), c.pos(ap), "every emitted message of every walked machine is appended to the pending queue exactly once", why)
 	}
-	c.R.Check(requeues == 1, "C08-R5", "ProcessMsg:one re-queue site", c.P.Pos(pm.Pos()), "one append to the pending queue per emitted message", fmt.Sprintf("expected exactly one place that re-queues emitted messages, found %d", requeues))
+	c.R.Check(requeues == 1, rule, "ProcessMsg:one re-queue site", c.P.Pos(pm.Pos()), "one append to the pending queue per emitted message", fmt.Sprintf("expected exactly one place that re-queues emitted messages, found %d", requeues))
 	// ---- report: appends to Result.Emitted
 	found := 0
 	for _, f := range ssau.WithAnon(pm) {
@@ -579,11 +582,11 @@ func c08Crew(c *Ctx) {
 					}
 				}
 			}
-			c.R.Check(ok2, "C08-R5", fmt.Sprintf("ProcessMsg:batch#%d reported and private", found), c.pos(in), "each walked machine's emitted messages are reported as one batch made inside the per-machine loop", why)
+			c.R.Check(ok2, rule, fmt.Sprintf("ProcessMsg:batch#%d reported and private", found), c.pos(in), "each walked machine's emitted messages are reported as one batch made inside the per-machine loop", why)
 		})
 	}
 	if found == 0 {
-		c.R.Break("C08-R5: no append to Result.Emitted found in ProcessMsg")
+		c.R.Break("%s: no append to Result.Emitted found in ProcessMsg", rule)
 	}
 }
 
